@@ -307,8 +307,11 @@ func (hs *clientHandshakeState) handshake() error {
 
 func (hs *clientHandshakeState) pickTLSVersion() error {
 	vers, ok := hs.c.config.mutualVersion(hs.serverHello.vers)
-	if !ok || vers < VersionTLS10 {
-		// TLS 1.0 is the minimum version supported as a client.
+	if !ok || vers < VersionTLS10 || vers != hs.serverHello.vers {
+		// TLS 1.0 is the minimum version supported as a client. mutualVersion
+		// clamps a peer's version to our maximum, which is right for the
+		// version a client offers but not for the version a server selects:
+		// that one has to be a version we offered (RFC 5246, 7.4.1.3).
 		hs.c.sendAlert(alertProtocolVersion)
 		return fmt.Errorf("tls: server selected unsupported protocol version %x", hs.serverHello.vers)
 	}
